@@ -247,6 +247,7 @@ def tlc_records_one(run, module, path, timeout=1800, xmx="4g"):
 def tlc_records(run, module, files, par=6):
     """Judge record files with a variable-free module; returns (n, [(file, idx, key)])."""
     total, bad = 0, []
+    files = files or []
     with ThreadPoolExecutor(max_workers=par) as ex:
         for f, (n, b) in zip(files, ex.map(lambda f: tlc_records_one(run, module, f), files)):
             total += n
@@ -308,6 +309,7 @@ def tlc_traces(run, module, files, cfg=None, par=6):
 
     nt = ne = 0
     rejected = []
+    files = files or []
     with ThreadPoolExecutor(max_workers=par) as ex:
         for a, b, c in ex.map(one, files):
             nt += a
